@@ -34,9 +34,9 @@ func cfgFor(prop, tier string) tierCfg {
 	switch prop {
 	case "C15":
 		if quick {
-			return tierCfg{pool: 420, scenarios: 520, profile: Profile{MaxLen: 330, MaxRSEcc: 68, ScaleMax: 160}, maxOps: 50, budget: 4 * time.Minute, shrinkEvals: 120, boundaryGroups: 10, marathons: 4, marathonLen: 700}
+			return tierCfg{pool: 420, scenarios: 520, profile: Profile{MaxLen: 330, MaxRSEcc: 68, ScaleMax: 160}, maxOps: 50, budget: 4 * time.Minute, shrinkEvals: 120, boundaryGroups: 10, marathons: 2, marathonLen: 700}
 		}
-		return tierCfg{pool: 5000, scenarios: 9000, profile: Profile{MaxLen: 2960, MaxRSEcc: 200, ScaleMax: 400, HeavyTail: true}, maxOps: 250, budget: 50 * time.Minute, shrinkEvals: 300, boundaryGroups: 40, marathons: 40, marathonLen: 6000}
+		return tierCfg{pool: 5000, scenarios: 9000, profile: Profile{MaxLen: 2960, MaxRSEcc: 200, ScaleMax: 400, HeavyTail: true}, maxOps: 250, budget: 50 * time.Minute, shrinkEvals: 300, boundaryGroups: 40, marathons: 30, marathonLen: 6000}
 	case "C16":
 		if quick {
 			return tierCfg{pool: 360, scenarios: 420, raceFrac: 0.3, profile: Profile{MaxLen: 110, MaxRSEcc: 68, ScaleMax: 120}, maxOps: 4, maxW: []int{2, 2, 3, 4, 4, 8, 16}, budget: 4 * time.Minute, shrinkEvals: 120, boundaryGroups: 10}
@@ -323,18 +323,39 @@ func genC15(seed uint64, cfg tierCfg) ([]*Scenario, []Call) {
 	}
 	// marathons: very long histories of cheap calls over a small set (counters that wrap, free lists and
 	// LRUs that only misbehave when full, slices re-sliced a little further on every call)
-	for k := 0; k < cfg.marathons; k++ {
+	for k := 0; k < cfg.marathons+len(families); k++ {
 		r := &rng{s: mix(seed, 15, 9, uint64(k))}
+		// the first len(families) marathons stay inside one encoder family each (per-package state),
+		// the rest mix all of them
+		oneFam := ""
+		if k < len(families) {
+			oneFam = families[k]
+		}
 		var cheap []Call
-		for len(cheap) < r.rangeIn(3, 24) {
-			c := genFamily(r, Profile{MaxLen: 24, MaxRSEcc: 20, ScaleMax: 60}, families[r.intn(len(families))])
+		want := r.rangeIn(3, 24)
+		for len(cheap) < want {
+			fam := oneFam
+			if fam == "" {
+				fam = families[r.intn(len(families))]
+			}
+			c := genFamily(r, Profile{MaxLen: 24, MaxRSEcc: 20, ScaleMax: 60}, fam)
 			if c.Fn == "aztec" && len(c.B) > 40 {
 				continue
 			}
 			cheap = append(cheap, c)
 		}
 		n := cfg.marathonLen
-		if k%8 == 7 {
+		if oneFam != "" {
+			n = cfg.marathonLen * 3 / 7
+			switch oneFam {
+			case "qr", "dm", "aztec", "pdf417":
+				// 2D symbols cost thousands of steps each
+			default:
+				if cfg.marathonLen > 2000 {
+					n = 70_000 // 16-bit counters
+				}
+			}
+		} else if k%8 == 7 {
 			n *= 12 // the occasional very long one
 		}
 		var prog []Call
